@@ -1,5 +1,6 @@
 import QV.Wire
 import QV.Shared.GateWire
+import QV.Shared.GateProgWire
 import QV.C14.Model
 import QV.C14.Spec
 import QV.C15.Model
@@ -12,77 +13,6 @@ open QV QV.GateWire QV.C14
 def tolAgree : Float := 1e-12
 /-- specification composition vs implementation, and unitarity -/
 def tolSpec : Float := 1e-10
-
-def decodeMod : Sexp → Option Modifier
-  | .atom "C" => some .controlled
-  | .atom "D" => some .dagger
-  | .atom "F" => some .forked
-  | _ => none
-
-def decodeGate : Sexp → Option (Gate C64)
-  | .list [.atom "gate", .str name, .list (.atom "mods" :: ms), .list (.atom "params" :: ps),
-           .list (.atom "qubits" :: qs)] =>
-    match decodeAll decodeMod ms, decodeAll decodeParam ps, decodeAll decodeQubit qs with
-    | some ms, some ps, some qs => some ⟨name, ps, qs, ms⟩
-    | _, _, _ => none
-  | _ => none
-
-def decodeInstr : Sexp → Option (Instr C64)
-  | .list [.atom "halt"] => some .halt
-  | .list [.atom "other"] => some .other
-  | s => (decodeGate s).map .gate
-
-private def fixedOnly : List Qubit → Option (List Nat)
-  | [] => some []
-  | .fixed k :: qs => (fixedOnly qs).map (k :: ·)
-  | _ :: _ => none
-
-private def realNums : List (Param C64) → Option (List C64)
-  | [] => some []
-  | .num z :: ps => if z.im == 0.0 then (realNums ps).map (z :: ·) else none
-  | _ :: _ => none
-
-/-- the gate as the specification sees it, when it is a well-formed application to distinct fixed qubits `< n` -/
-def specArgs (g : Gate C64) (n : Nat) : Option (List Modifier × String × List C64 × List Nat) :=
-  match fixedOnly g.qubits, realNums g.params with
-  | some qs, some θs => if validPlacement qs n then some (g.mods, g.name, θs, qs) else none
-  | _, _ => none
-
-def gateSpec (g : Gate C64) (n : Nat) : Option M :=
-  (specArgs g n).bind fun (ms, name, θs, qs) => denote n ms name θs qs
-
-private def modsTag (ms : List Modifier) : String :=
-  "m-" ++ String.ofList (ms.map fun | .controlled => 'C' | .dagger => 'D' | .forked => 'F')
-
-private def resTag : Res → String
-  | .ok _ => "ok" | .err k => s!"err-{k}" | .crash => "crash" | .timeout => "timeout"
-
-def progRes : Outcome (Except ProgErr M) → Res
-  | .ok (.ok m) => .ok m
-  | .ok (.error (.gate e)) => .err ("gate-" ++ errName e)
-  | .ok (.error .unsupported) => .err "unsupported"
-  | .crash _ => .crash
-  | .outOfFuel => .timeout
-
-def encodeQubit : Qubit → Sexp
-  | .fixed k => .list [.atom "f", .atom (toString k)]
-  | .variable => .list [.atom "v"]
-  | .placeholder => .list [.atom "p"]
-
-/-- gates are compared structurally except for numeric parameters, which the harness echoes bit for bit;
-the model only moves them around, so comparing the encoded form is exact -/
-def encodeGate (g : Gate C64) : Sexp :=
-  .list [.atom "gate", .str g.name,
-    .list (.atom "mods" :: g.mods.map fun | .controlled => .atom "C" | .dagger => .atom "D" | .forked => .atom "F"),
-    .list (.atom "params" :: g.params.map fun
-      | .num z => .list [.atom "num", ExprWire.encodeF64 z.re, ExprWire.encodeF64 z.im]
-      | .other => .list [.atom "other"]),
-    .list (.atom "qubits" :: g.qubits.map encodeQubit)]
-
-def encodeInstr : Instr C64 → Sexp
-  | .gate g => encodeGate g
-  | .halt => .list [.atom "halt"]
-  | .other => .list [.atom "other"]
 
 def handle (inp out : Sexp) : CaseResult :=
   match inp with
@@ -131,10 +61,7 @@ def handle (inp out : Sexp) : CaseResult :=
           | _, _ => (false, true, "dagger-mismatch")
         -- specification of the program unitary: the product of the gates' denotations, HALT skipped
         let gates := is.filterMap fun | .gate g => some g | _ => none
-        let onlyGatesAndHalt := is.all fun | .other => false | _ => true
-        let args := gates.map fun g => specArgs g n
-        let spec : Option M :=
-          if onlyGatesAndHalt && args.all Option.isSome then denoteProg n (args.filterMap id) else none
+        let spec : Option M := progSpec is n
         let specOk1 := match spec, impl with
           | some s, .ok m => closeMat tolSpec s m && isUnitaryF tolSpec m
           | some _, _ => false
